@@ -447,7 +447,8 @@ pub fn run(ctx: &Ctx) -> i32 {
   });
   // exponent sweep around the critical parallels / meridians (hash_with_dxdy, all depths)
   {
-    let pos = exponent_sweep_positions();
+    let mut pos = exponent_sweep_positions();
+    pos.extend(degree_positions()); // "round" user values: integer degrees
     let chunk = 128usize;
     let sweep = par_jobs((pos.len() + chunk - 1) / chunk, |job| {
       let mut part = Part::new();
